@@ -21,6 +21,7 @@ from __future__ import annotations
 
 import collections
 import os
+import time
 
 from vf.common import Shard, short_tb
 
@@ -99,6 +100,8 @@ def run_case(sh: Shard, prog, seed):
 def run_shard(sh: Shard) -> None:
     from vf.harness import c04_wfgen as G
 
+    G.warm_up()
+    sh.t0 = time.time()  # soft budget counts from after the engine import (minutes on a loaded machine)
     rng = sh.rng("programs", sh.shard)
     nsched = sh.pick(2, 4)
     ops = collections.Counter()
